@@ -324,7 +324,8 @@ def wide_layouts(N, r, k=6):
 
 
 def sparse(N, sz, r, extra=2):
-    s = {0, 1, 2, sz // 2, max(sz - 2, 0), max(sz - 1, 0), sz, sz + 1, N - 1, N, N + 1, MAX - 1, MAX}
+    s = {0, 1, 2, sz // 4, max(sz // 2 - 1, 0), sz // 2, sz // 2 + 1, (3 * sz) // 4, max(sz - 2, 0), max(sz - 1, 0), sz, sz + 1,
+         N - 1, N, N + 1, MAX - 1, MAX}
     for _ in range(extra):
         s.add(r.below(N + 2))
     return sorted(x for x in s if 0 <= x <= MAX)
@@ -394,8 +395,10 @@ def wide_cases(g, Ns, kind, elem="E", fault="none", suffix=("new",), layouts_per
             mk = (lambda c: wide_io(c, N, sz, Rng(N * 1000 + st * 7 + sz), fams)) if kind == "io" else \
                  (lambda c: wide_ops(c, N, sz, Rng(N * 1000 + st * 7 + sz), kind))
             n = len(mk(probe))
+            # large capacities: every case carries the whole contents; keep about 60 operations per layout
+            ev = max(every, n // 60) if N > 1000 else every
             for k in range(n):
-                if every > 1 and not r.chance(1, every):
+                if ev > 1 and not r.chance(1, ev):
                     continue
                 c = g.new(N, st, vals, junk=junk, fault=fault, elem=elem, tag="wide")
                 c.ops = [mk(c)[k]] + list(suffix)
